@@ -684,6 +684,24 @@ class PathCtx:
         self.solver.add(c)
         return d
 
+    def oblige_seq(self, items, prefix, kind='post'):
+        """a sequence of (name, goal[, conclusion]) items; names starting with 'hint:' are proof steps that
+        later items of the same sequence may use once discharged"""
+        hints = []
+        out = []
+        for item in items:
+            nm, g = item[0], item[1]
+            if nm.startswith('hint:'):
+                o = self.oblige('%s.%s' % (prefix, nm), g, kind='hint')
+                o.hints = list(hints)
+                o.conclusion = item[2] if len(item) > 2 else None
+                hints.append(o)
+            else:
+                o = self.oblige('%s.%s' % (prefix, nm), g, kind=kind)
+                o.hints = list(hints)
+            out.append(o)
+        return out
+
     def oblige(self, name, goal, kind='post', where=None):
         goal = simp(goal)
         if goal is True:
@@ -884,6 +902,8 @@ class Scalars:
         raise Unsupported('binop %s' % type(op).__name__)
 
     def compare(self, op, a, b):
+        if isinstance(a, SymList) and not isinstance(b, (SymList, list)):
+            a = self.I.lib.as_arr(a)      # list <op> numpy scalar: numpy converts the list
         if isinstance(a, Arr) or isinstance(b, Arr):
             if isinstance(op, (ast.Is, ast.IsNot)):
                 r = a is b
